@@ -1,5 +1,5 @@
 """Property -> rules mapping."""
-from .rules import hyg
+from .rules import hdr, hyg
 
 PROPS = {}
 
@@ -17,6 +17,20 @@ prop(
         "assumptions": [
             "tokens spliced from the user's item (#ident, #ty, attribute expressions) are the user's own and may name anything",
             "Rust name resolution: a path root preceded by `::`/`.`/`'` is not looked up in the caller's scope; `derive_more` is the extern-prelude crate name",
+        ],
+    },
+)
+
+
+prop(
+    "C01",
+    [hdr.rule_tpl_hdr, hdr.rule_tpl_lint, hdr.rule_tpl_selfassoc],
+    meta={
+        "explanation": "Structural necessary conditions of 'every supported input expands to code that compiles warning-free', decided on the templates "
+        "(universal expansions) with interpolations typed by rustc (MIR var_debug_info join).",
+        "assumptions": [
+            "NOT decided: that every well-typed input type-checks after expansion (trait solving over arbitrary field types); only header/generics/lint necessary conditions",
+            "deprecated-lint behaviour inside derive expansions (fires for paths to deprecated variants, not for field access) as observed on the installed toolchains",
         ],
     },
 )
